@@ -644,6 +644,9 @@ class NDCubeBase(NDCubeABC, astropy.nddata.NDData, NDCubeSlicingMixin):
         n_coords = len(points[0])
         if units is None:
             units = [None] * n_coords
+        elif len(units) < n_coords and all(coord is None for point in points for coord in point[len(units):]):
+            # Points are padded with None for cube axes without extra coords; pad the units likewise.
+            units = list(units) + [None] * (n_coords - len(units))
         elif len(units) != n_coords:
             raise ValueError(f"Units must be None or have same length {n_coords} as corner inputs.")
         types_with_units = (u.Quantity, type(None))
